@@ -139,7 +139,7 @@ package backend
 //@ func (*backend).Count(ctx, r) (resp, err)
 //@   props C03 C20
 //@   requires wf_backend(b) && b.scanner != nil && r != nil
-//@   modifies *
+//@   modifies inferred:(*backend).Count
 //@   ensures [answer-or-error] err == nil ==> resp != nil && resp.Header != nil
 
 // ---- C03: the limited list, end to end ----
